@@ -5,6 +5,8 @@
 // VBUILD: libs=schedx
 #include "engines/schedx/schedx.h"
 #include <poll.h>
+#include <map>
+#include <algorithm>
 #include "system/Thread.h"
 #include "system/SetupSystem.h"
 #include "message/Message.h"
@@ -162,17 +164,20 @@ int main(int argc, char ** argv)
    schedx::StartPool(Factory(), opt, args.workers);
    // quick tier: bound 3 for every configuration.  Thorough tier: the same (always run to completion first), then every configuration again with ONE MORE
    // preemption, each with a fair share of the remaining time (a configuration cut by its share is named in cap and the part is reported exhaustive:false).
+   std::map<std::string, unsigned long> firstPassExecs;
    unsigned long execs = 0; bool capped = false; const int baseBound = args.kv.count("bound") ? opt.bound : 3;
    const std::string ruleTail = verif::Fmt(" of %u configurations = {socket-pair, wait-condition signalling} x {basic send/reply/shutdown, Messages queued before start, shutdown with Messages pending, start-shutdown-restart, a second sender thread} x Message count + 4 configurations with an internal thread that select()s on its wake-up socket and polls the queue (send after start; queued before start; queued, sockets allocated, start; sockets allocated, queued, start), on a real muscle::Thread under a scheduler owning every queue-lock, signal (send/Notify), blocking wait (socket/WaitCondition), spawn, exit and join point; one schedule = one execution of the real code; distinct = distinct (status, handled order, reply order)", (unsigned)cfgs.size());
    for (int pass = 0; pass < ((args.Thorough() && !args.kv.count("bound")) ? 2 : 1); pass++) {
       schedx::Options o2 = opt; o2.bound = baseBound + pass;
       verif::Part total; total.name = verif::Fmt("thread-bound%d", o2.bound); bool passCapped = false;
+      // second pass: cheapest configuration first (by its execution count in the first pass), so that time a cheap one leaves unused goes to the expensive ones
+      if (pass == 1) { std::vector<std::pair<unsigned long, std::string> > byCost; for (size_t i = 0; i < cfgs.size(); i++) byCost.push_back(std::make_pair(firstPassExecs[cfgs[i]], cfgs[i])); std::stable_sort(byCost.begin(), byCost.end()); for (size_t i = 0; i < cfgs.size(); i++) cfgs[i] = byCost[i].second; }
       for (size_t i = 0; i < cfgs.size(); i++) {
          const double nowT = verif::NowS();
          if (nowT > deadline) { passCapped = true; if (total.cap.empty()) total.cap = "deadline before " + cfgs[i]; break; }
          const double jobDeadline = pass ? std::min(deadline, nowT + std::max(60.0, (deadline - nowT) / (double)(cfgs.size() - i))) : deadline;
          schedx::Explore("thread", cfgs[i], o2, args, res, jobDeadline);
-         verif::Part p = res.parts.back(); res.parts.pop_back();
+         verif::Part p = res.parts.back(); res.parts.pop_back(); if (pass == 0) firstPassExecs[cfgs[i]] = (unsigned long)p.transitions;
          total.states += p.states; total.transitions += p.transitions; total.evaluations += p.evaluations; total.distinct_outcomes += p.distinct_outcomes; execs += p.transitions; if (!p.exhaustive) { passCapped = true; total.cap += (total.cap.empty() ? "" : "; ") + p.cap + " in " + cfgs[i]; }
          if (total.samples.size() < 3 && !p.samples.empty()) total.samples.push_back(p.samples[(size_t)args.seed % p.samples.size()]);
          total.extra[cfgs[i]] = verif::Fmt("{\"executions\": %llu, \"distinct_outcomes\": %llu, \"by_cost\": %s, \"max_points\": %s, \"exhaustive\": %s}", (unsigned long long)p.transitions, (unsigned long long)p.distinct_outcomes, p.extra["executions_by_cost"].c_str(), p.extra["max_points_in_one_execution"].c_str(), p.exhaustive ? "true" : "false");
